@@ -5,6 +5,12 @@ pub open spec fn cates_consistent(names: Map<Seq<char>, u32>, infos: Map<u32, Ch
     forall|n: Seq<char>| #[trigger] names.contains_key(n) && infos.contains_key(names[n]) ==> infos[names[n]].s_base_id() == names[n]
 }
 
+/// category ids are handed out densely (id = number of names seen before), and CharInfo keeps 8 bits for them
+pub open spec fn ids_dense(names: Map<Seq<char>, u32>) -> bool {
+    &&& names.dom().finite() && names.dom().len() <= 256
+    &&& forall|n: Seq<char>| #[trigger] names.contains_key(n) ==> (names[n] as int) < names.dom().len()
+}
+
 /// bit set with exactly the ids of the first `upto` names
 pub open spec fn cate_bits(ts: Seq<Seq<char>>, names: Map<Seq<char>, u32>, upto: int) -> u32
     decreases upto
